@@ -66,27 +66,31 @@ def scanSpec : Nat → List Nat → Except PyError (List Nat × List Nat)
       | .ok (s, r) => .ok (c :: s, r)
       | .error e => .error e
 
+/-- `parse_field` after the field-name loop: `term` is the character that ended the name, `rest`
+    the text after it. -/
+def afterName (name : List Nat) (term : Nat) (rest : List Nat) : Except PyError (Field × List Nat) :=
+  if term = 125 then .ok ({ name := name, conv := none, spec := [] }, rest)
+  else if term = 58 then
+    match scanSpec 0 rest with
+    | .ok (s, r) => .ok ({ name := name, conv := none, spec := s }, r)
+    | .error e => .error e
+  else -- `!`: exactly one conversion character, then `}` or `:`
+    match rest with
+    | [] => .error eosInConversion
+    | [_] => .error unmatchedLBraceInSpec       -- falls into the spec loop at end of input
+    | c :: d :: rest' =>
+      if d = 125 then .ok ({ name := name, conv := some c, spec := [] }, rest')
+      else if d = 58 then
+        match scanSpec 0 rest' with
+        | .ok (s, r) => .ok ({ name := name, conv := some c, spec := s }, r)
+        | .error e => .error e
+      else .error expectedColon
+
 /-- `parse_field` on the text that follows the opening `{`. -/
 def parseField (text : List Nat) : Except PyError (Field × List Nat) :=
   match scanName false text with
   | .error e => .error e
-  | .ok (name, term, rest) =>
-    if term = 125 then .ok ({ name := name, conv := none, spec := [] }, rest)
-    else if term = 58 then
-      match scanSpec 0 rest with
-      | .ok (s, r) => .ok ({ name := name, conv := none, spec := s }, r)
-      | .error e => .error e
-    else -- `!`: exactly one conversion character, then `}` or `:`
-      match rest with
-      | [] => .error eosInConversion
-      | [_] => .error unmatchedLBraceInSpec       -- falls into the spec loop at end of input
-      | c :: d :: rest' =>
-        if d = 125 then .ok ({ name := name, conv := some c, spec := [] }, rest')
-        else if d = 58 then
-          match scanSpec 0 rest' with
-          | .ok (s, r) => .ok ({ name := name, conv := some c, spec := s }, r)
-          | .error e => .error e
-        else .error expectedColon
+  | .ok (name, term, rest) => afterName name term rest
 
 /-! ## MarkupIterator_next -/
 
